@@ -1,9 +1,11 @@
 package suites
 
 import (
+	"bytes"
 	"fmt"
 	"math/rand"
 	"os"
+	"runtime"
 	"sort"
 	"strconv"
 	"strings"
@@ -306,7 +308,7 @@ var hostileBits = []string{
 	"\r", "\n", "\r\n", "\r\nQUIT :bye", "\nPRIVMSG #x :pwn", "\r\n\r\n", "\n\r",
 	"\x00", "\x80", "\xbf", "\xc3", "\xe2\x82", "\xf0\x9f\x98", "\xc0\xaf", "\xed\xa0\x80", "\xff",
 	"\xc3\n\xa9", "\xe2\r\x82\n\xac", " ", "  ", ":", " :", ",", "\x01", "\t", "\xc2\xa0", "\xc3\xa9", "\xe2\x82\xac", "\xf0\x9f\x98\x80",
-	"\x02", "\x0304", "{red}",
+	"\x02", "\x0304", "{red}", "\xef\xbf\xbd", "a\xef\xbf\xbdb", "\xef\xbf\xbd\r\n",
 }
 
 var plainBits = []string{"a", "nick", "#chan", "#a,#b", "hello", "world", "x", "+o", "-b", "*!*@host", "irc.test", "42", "", "Some text here", "ACTION", "VERSION"}
@@ -810,7 +812,7 @@ func runHelperCase(c Case) Result {
 
 func fixedHelperCases() []Case {
 	var out []Case
-	inj := []string{"x\r\nQUIT :bye", "x\nQUIT", "x\rQUIT", "\r\n", "\n", "a\x00b", "a\x80b", "\xc3", "\xc3\n\xa9", " ", ":", "", "a b", ":a", "#c d", strings.Repeat("w ", 300), strings.Repeat("z", 600), strings.Repeat("\xe2\x82\xac", 200), "long " + strings.Repeat("word ", 100) + "\r\nQUIT"}
+	inj := []string{"a\xef\xbf\xbdb", "x\r\nQUIT :bye", "x\nQUIT", "x\rQUIT", "\r\n", "\n", "a\x00b", "a\x80b", "\xc3", "\xc3\n\xa9", " ", ":", "", "a b", ":a", "#c d", strings.Repeat("w ", 300), strings.Repeat("z", 600), strings.Repeat("\xe2\x82\xac", 200), "long " + strings.Repeat("word ", 100) + "\r\nQUIT"}
 	variadic := map[string]bool{"mode": true, "invite": true, "monitor": true}
 	for _, h := range helperNames {
 		ar := helperArity[h]
@@ -1073,6 +1075,9 @@ func runEventCase(c Case) Result {
 	if token {
 		sig += "/token"
 	}
+	if o := bytesAliased(e.Copy()); o != "" {
+		return Result{Obs: "?aliased", Oracle: o, Sig: "aliased"}
+	}
 	mark := x.s.Mark()
 	x.s.C.Send(e)
 	pieces, synced := x.flush(mark)
@@ -1119,6 +1124,9 @@ func fixedEventCases() []Case {
 		{Command: "PRIVMSG", Tags: girc.Tags{"k": strings.Repeat("v", 4090)}, Params: []string{"#c", "x"}},
 		{Command: "PRIVMSG", Tags: girc.Tags{"k": strings.Repeat("v", 4093)}, Params: []string{"#c", "x"}},
 		{Command: "PRIVMSG", Tags: girc.Tags{"a": "1", "k": strings.Repeat("v", 4089)}, Params: []string{"#c", "x"}},
+		{Command: "PRIVMSG", Params: []string{"#c", "replacement \xef\xbf\xbd char \xef\xbf\xbd"}},
+		{Command: "P\xef\xbf\xbdX", Source: &girc.Source{Name: "n\xef\xbf\xbd"}, Params: []string{"\xef\xbf\xbd"}},
+		{Command: "TOPIC", Params: []string{"#c", strings.Repeat("a", 6000)}},
 		{Command: "A"},
 		{Command: ""},
 		{Command: "\r\n"},
@@ -1146,10 +1154,71 @@ func fixedEventCases() []Case {
 
 // ---- wire.len ----------------------------------------------------------------------------
 
+// ---- freshness of the slice Bytes() returns -------------------------------------------------
+
+// The model's event_bytes is a pure function. For the implementation that includes an
+// obligation the model cannot express: the slice Bytes() returns must not share memory
+// with anything a later serialisation writes to (sendLoop is still handing it to the
+// socket while other goroutines serialise other events). aliasDisturbers are events that
+// are serialised after Bytes() returned: different lengths (one beyond bufio's 4096),
+// CR/LF-bearing and invalid-UTF-8-bearing fields, tags, source.
+var aliasDisturbers = []*girc.Event{
+	{Command: "X"},
+	{Command: "PRIVMSG", Params: []string{"#other", "yyy\r\nQUIT :smuggled\r\nzzz"}},
+	{Command: "PRIVMSG", Params: []string{"#other", strings.Repeat("x", 300) + "\r\nQUIT :smuggled\r\n" + strings.Repeat("y", 300) + "\xff"}},
+	{Command: "TOPIC", Params: []string{"#other", strings.Repeat("q\r\n", 1500)}},
+	{Command: "NOTICE", Tags: girc.Tags{"k": "v\r\n"}, Source: &girc.Source{Name: "n\n", Ident: "u", Host: "h"}, Params: []string{"t", strings.Repeat("\xe2\x82\xac", 2000) + "\xc3"}},
+}
+
+// bytesAliased returns a description if the slice Bytes() returned changes while other
+// events are serialised.
+func bytesAliased(e *girc.Event) string {
+	b1 := e.Bytes()
+	want := append([]byte(nil), b1...)
+	s1 := e.String()
+	for round := 0; round < 2; round++ {
+		for _, d := range aliasDisturbers {
+			_ = d.Bytes()
+			_ = d.String()
+			_ = d.Len()
+			if !bytes.Equal(b1, want) {
+				return fmt.Sprintf("bytes-aliased: the slice returned by Bytes() changed when another event was serialised: was %s, now %s", strconv.Quote(trunc(string(want))), strconv.Quote(trunc(string(b1))))
+			}
+		}
+	}
+	if s1 != string(want) {
+		return "string-bytes: String() differs from Bytes()"
+	}
+	return ""
+}
+
+func trunc(s string) string {
+	if len(s) > 120 {
+		return s[:120] + "..."
+	}
+	return s
+}
+
+// bytesAliasedPinned is bytesAliased on a single P, where a sync.Pool hands the buffer
+// just put back to the very next Get.
+func bytesAliasedPinned(e *girc.Event) string {
+	old := runtime.GOMAXPROCS(1)
+	defer runtime.GOMAXPROCS(old)
+	return bytesAliased(e)
+}
+
 func runLenCase(c Case) Result {
 	e, _, ok := decEvent(c)
 	if !ok {
 		return Result{Obs: "?bad-case"}
+	}
+	if o := bytesAliased(e); o != "" {
+		return Result{Obs: "?aliased", Oracle: o, Sig: "aliased"}
+	}
+	if len(c)%8 == 0 {
+		if o := bytesAliasedPinned(e); o != "" {
+			return Result{Obs: "?aliased", Oracle: o, Sig: "aliased"}
+		}
 	}
 	b := e.Bytes()
 	l, lf := e.Len(), e.LenOpts(false)
